@@ -38,3 +38,7 @@ package types
 
 //@ func (sk StakingKeeper).UnbondingTime(ctx) (d, err)
 //@ trusted
+
+// GetRedelegationsFromSrcValidator reads the redelegation index of the staking store.
+//@ func (sk StakingKeeper).GetRedelegationsFromSrcValidator(ctx, valAddr) (reds, err)
+//@ trusted
